@@ -103,11 +103,22 @@ option "operating_currency" "USD"
 _STATE = {}
 
 
+def ledger():
+    if 'ledger' not in _STATE:
+        _STATE['ledger'] = loader.load_string(LEDGER)
+    return _STATE['ledger']
+
+
+def fresh_connection():
+    """A connection without history (beancount tables only; nothing was executed on it)."""
+    entries, errors, options = ledger()
+    return beanquery.connect('beancount:', entries=entries, errors=errors, options=options)
+
+
 def connection():
     """One connection per process: beancount tables + harness tables t (6 typed columns) and u."""
     if 'conn' not in _STATE:
-        entries, errors, options = loader.load_string(LEDGER)
-        conn = beanquery.connect('beancount:', entries=entries, errors=errors, options=options)
+        conn = fresh_connection()
         rows = [
             (1, 2, 'ab', D('1.5'), True, DATE(2020, 1, 1)),
             (2, 2, 'Ab', D('2.25'), False, DATE(2020, 2, 29)),
@@ -193,8 +204,9 @@ class Builder:
     """Assembles the statement text and remembers, per target, kind, expected fixed name or expression and
     the region of the text that belongs to the target."""
 
-    def __init__(self, rot):
-        self.rot = rot
+    def __init__(self, rot, spell=None):
+        self.rot = rot                                  # structure: menu entries, aliases, clauses, letter case
+        self.spell = rot if spell is None else spell    # spelling only: pads, parentheses, style of each expression
         self.parts = []
         self.pos = 0
         self.targets = []
@@ -204,16 +216,16 @@ class Builder:
         self.pos += len(text)
 
     def pad(self, k):
-        self.add(PADS[(self.rot * 7 + k) % len(PADS)])
+        self.add(PADS[(self.spell * 7 + k) % len(PADS)])
 
     def sep(self, k, must=True):
         """Blank that separates two word tokens."""
-        p = PADS[(self.rot * 3 + k) % len(PADS)]
+        p = PADS[(self.spell * 3 + k) % len(PADS)]
         self.add(p if p else ' ')
 
     def expr_text(self, e, k):
-        parens, style = STYLE_PLANS[(self.rot + k * 3) % len(STYLE_PLANS)]
-        return unparse(e, parens, style, salt=self.rot + k, ends=False)
+        parens, style = STYLE_PLANS[(self.spell + k * 3) % len(STYLE_PLANS)]
+        return unparse(e, parens, style, salt=self.spell + k, ends=False)
 
     def target(self, k, kind, expr=None, column=None, alias=None, raw=None):
         """raw: hand-made source text of ``expr`` (for texts the printer refuses, e.g. the column `open`)."""
@@ -253,9 +265,10 @@ def clause_expr(b, e, k):
     b.add(b.expr_text(e, k))
 
 
-def build_plain(kinds, rot, nhidden, order_visible, extras):
-    """Non-aggregate statement over #t.  kinds: string over 'ACE'."""
-    b = Builder(rot)
+def build_plain(kinds, rot, nhidden, order_visible, extras, spell=None):
+    """Non-aggregate statement over #t.  kinds: string over 'ACE'.  spell: spelling rotation when it is not rot
+    (same statement, other blanks / comments / parentheses / style)."""
+    b = Builder(rot, spell)
     b.add('SELECT' if rot % 2 == 0 else 'select')
     b.sep(0)
     if extras.get('distinct'):
@@ -316,9 +329,9 @@ def build_plain(kinds, rot, nhidden, order_visible, extras):
     return b
 
 
-def build_grouped(kinds, rot, g, h, o):
+def build_grouped(kinds, rot, g, h, o, spell=None):
     """Aggregate statement over #t: key targets + aggregate targets, g hidden keys, h HAVING, o hidden ORDER BY aggregates."""
-    b = Builder(rot)
+    b = Builder(rot, spell)
     b.add('SELECT')
     b.sep(0)
     keys = []          # GROUP BY items referring to visible key targets
@@ -397,10 +410,23 @@ def build_grouped(kinds, rot, g, h, o):
     return b
 
 
+def sequence_unit(label, nhidden, builders):
+    """The same statement in several spellings, to be executed one after the other on one connection."""
+    return ('sequence', label, [b.text() for b in builders], [b.targets for b in builders], nhidden)
+
+
 def named_statements(nrot_plain, nrot_grouped, seed=0, thin=False):
-    """('named', label, text, targets, nhidden).  The seed shifts which menu entry / spelling meets which
-    kind sequence; the set of kind sequences x hidden configurations does not depend on it."""
+    """('named', label, text, targets, nhidden) or ('sequence', label, texts, target lists, nhidden).  The seed
+    shifts which menu entry / spelling meets which kind sequence; the set of kind sequences x hidden
+    configurations does not depend on it.
+
+    Respelled sequences: a statement is followed, on the same connection, by the same statement (same AST) in
+    other spellings of every expression, pad and keyword (RESPELL shifts of the spelling rotation; a shift of 1
+    changes the style of every expression) and then by the first spelling again.  Thorough: every statement of
+    the first rotation; quick: for every kind sequence one plain statement (the number of hidden targets
+    rotates with the sequence) and one grouped statement (the configuration rotates with the sequence)."""
     seqs = [''.join(s) for n in (1, 2, 3, 4) for s in itertools.product('ACE', repeat=n)]
+    shifts = (1,) if thin else (1, 2, 5)
     rot = seed * 13
     for si, kinds in enumerate(seqs):
         for r in range(nrot_plain):
@@ -408,7 +434,12 @@ def named_statements(nrot_plain, nrot_grouped, seed=0, thin=False):
                 rot += 1
                 extras = {'distinct': rot % 5 == 0, 'where': PLAIN_WHERE[rot % len(PLAIN_WHERE)], 'limit': [None, 0, 2, 100][rot % 4]}
                 b = build_plain(kinds, rot, nh, order_visible=(rot % 3 == 0), extras=extras)
-                yield ('named', ('plain', kinds, nh), b.text(), b.targets, nh)
+                if r == 0 and (not thin or nh == si % 4):
+                    again = [build_plain(kinds, rot, nh, order_visible=(rot % 3 == 0), extras=extras, spell=rot + d) for d in shifts]
+                    yield sequence_unit(('plain', kinds, nh), nh, [b] + again + ([b] if not thin else []))
+                else:
+                    yield ('named', ('plain', kinds, nh), b.text(), b.targets, nh)
+        ngrouped = 0
         for r in range(nrot_grouped):
             for ci, (g, h, o) in enumerate(itertools.product((0, 1, 2), (0, 1), (0, 1, 2))):
                 if g + h + o > 3:
@@ -417,7 +448,13 @@ def named_statements(nrot_plain, nrot_grouped, seed=0, thin=False):
                     continue          # quick: length-4 lists take every other configuration, alternating with the list
                 rot += 1
                 b = build_grouped(kinds, rot, g, h, o)
-                if b is not None:
+                if b is None:
+                    continue
+                ngrouped += 1
+                if r == 0 and (not thin or ngrouped == 1 + si % 5):
+                    again = [build_grouped(kinds, rot, g, h, o, spell=rot + d) for d in shifts]
+                    yield sequence_unit(('grouped', kinds, (g, h, o)), g + h + o, [b] + again + ([b] if not thin else []))
+                else:
                     yield ('named', ('grouped', kinds, (g, h, o)), b.text(), b.targets, g + h + o)
 
 
@@ -622,6 +659,119 @@ def attribute_statements(seed=0, nrot=1):
 
 
 # ---------------------------------------------------------------------------------------------------------
+# value alignment: the k-th value of a row is the value of the k-th described column
+
+VALUE_SOURCES = {
+    # key: (FROM, columns used, hidden ORDER BY expression of the inner / direct statement)
+    't': ('#t', ['i', 's', 'j', 'd', 'dt', 'b'], 'j * 3'),
+    'postings': ('#postings', ['date', 'account', 'number', 'narration'], 'flag'),
+}
+
+
+def source_rows(conn, key):
+    """Rows of the source restricted to VALUE_SOURCES[key] columns, from the harness table itself / from
+    beancount's own data model (never from a query)."""
+    if key == 't':
+        table = conn.tables['t']
+        index = [n for n, _ in table.cols]
+        return [tuple(row[index.index(c)] for c in VALUE_SOURCES['t'][1]) for row in table.rows]
+    from beancount.core import data
+    entries = ledger()[0]
+    return [(e.date, p.account, p.units.number, e.narration) for e in entries if isinstance(e, data.Transaction) for p in e.postings]
+
+
+def partitions(n):
+    """All set partitions of range(n) as restricted growth strings (1, 2, 5, 15 for n = 1..4)."""
+    def rec(prefix, top):
+        if len(prefix) == n:
+            yield tuple(prefix)
+            return
+        for c in range(top + 2):
+            yield from rec(prefix + [c], max(top, c))
+    yield from rec([], -1)
+
+
+def value_statements(thorough):
+    """('values', label, text, spec, nhidden); spec = {'source', 'targets': [{'kind', 'alias' | 'column'}],
+    'cols': [index into the source's column list per output position]}.
+
+    Inner lists: n = 1..4 bare / aliased columns (all different, so every position has its own values), the
+    names following EVERY set partition of the positions: the positions of a class of size >= 2 share one name
+    (style 0: a common alias; style 1: the first is a bare column and the others are aliased to its name), the
+    positions of singleton classes have unique names (style 0: bare column; style 1: alias and bare column
+    alternate).  Forms: the list itself (direct, with or without a hidden ORDER BY expression); from the list
+    as a sub-query: every uniquely named column alone, all uniquely named columns in reverse order, and `*`
+    when no name is repeated."""
+    for key, (frm, cols, hidden) in VALUE_SOURCES.items():
+        count = 0
+        for n in (1, 2, 3, 4):
+            for part in partitions(n):
+                for style in ((0, 1) if key == 't' or thorough else (0,)):
+                    count += 1
+                    shift = count % len(cols)
+                    pos_cols = [(p + shift) % len(cols) for p in range(n)]
+                    sizes = [part.count(c) for c in part]
+                    items, targets = [], []
+                    for p in range(n):
+                        c = cols[pos_cols[p]]
+                        if sizes[p] > 1:
+                            first = part.index(part[p])
+                            if style == 0:
+                                name, aliased = f'k{part[p]}', True
+                            else:
+                                name, aliased = cols[pos_cols[first]], p != first
+                        else:
+                            aliased = style == 1 and p % 2 == 0
+                            name = f'u{p}' if aliased else c
+                        items.append(f'{c} AS {name}' if aliased else c)
+                        targets.append({'kind': 'A', 'alias': name} if aliased else {'kind': 'C', 'column': c})
+                    names = [t.get('alias', t.get('column')) for t in targets]
+                    unique = [p for p in range(n) if names.count(names[p]) == 1]
+                    with_hidden = count % 2 == 0
+                    inner = f'SELECT {", ".join(items)} FROM {frm}' + (f' ORDER BY {hidden}' if with_hidden else '')
+                    lab = (key, ''.join(map(str, part)), style)
+                    yield ('values', ('direct',) + lab, inner, {'source': key, 'where': 'direct', 'targets': targets, 'cols': pos_cols}, int(with_hidden))
+
+                    def outer(ps, what):
+                        sel = ', '.join(names[p] for p in ps)
+                        return ('values', ('subquery',) + lab + (what,), f'SELECT {sel} FROM ({inner})',
+                                {'source': key, 'where': 'subquery', 'targets': [{'kind': 'C', 'column': names[p]} for p in ps], 'cols': [pos_cols[p] for p in ps]}, 0)
+                    for p in unique:
+                        if n > 1:
+                            yield outer([p], f'column-{p + 1}')
+                    if len(unique) >= 2:
+                        yield outer(unique[::-1], 'reversed')
+                    if len(unique) == n:
+                        yield ('values', ('subquery',) + lab + ('star',), f'SELECT * FROM ({inner})',
+                               {'source': key, 'where': 'subquery', 'targets': [{'kind': 'C', 'column': x} for x in names], 'cols': pos_cols}, 0)
+
+
+def typed_key(row):
+    return tuple((type(v).__name__, repr(v)) for v in row)
+
+
+def check_values(conn, label, spec, names, rows, out):
+    where = spec.get('where', 'direct')
+    if len(names) != len(spec['targets']):
+        out.append(('shape:description-length', f'description has {len(names)} columns {names!r}, the statement has {len(spec["targets"])} targets'))
+        return
+    check_named('', spec['targets'], names, out)
+    try:
+        expected = sorted(typed_key(tuple(r[c] for c in spec['cols'])) for r in source_rows(conn, spec['source']))
+        got = sorted(typed_key(tuple(r)) for r in rows)
+    except Exception as exc:        # noqa: BLE001 -- implementation values that cannot be printed / compared
+        out.append((f'values:{where}:unprintable', f'rows cannot be compared ({type(exc).__name__}: {exc})'))
+        return
+    if got != expected:
+        bad = next((k for k in range(len(names)) if sorted(r[k] for r in got if len(r) > k) != sorted(r[k] for r in expected)), None)
+        out.append((f'values:{where}:column-alignment',
+                    f'rows do not carry the values of the described columns {names!r}'
+                    + (f' (column {bad + 1}, {names[bad]!r}, holds {[r[bad][1] for r in got if len(r) > bad][:4]} ..., the source column '
+                       f'{VALUE_SOURCES[spec["source"]][1][spec["cols"][bad]]!r} holds {[r[bad][1] for r in expected][:4]} ...)' if bad is not None else '')
+                    + f': {len(got)} rows, expected {len(expected)}'))
+
+
+# ---------------------------------------------------------------------------------------------------------
 # oracle
 
 _REPARSE = {}
@@ -703,6 +853,9 @@ def check_statement(conn, unit, acc=None):
         nexp = len(expected)
         if acc is not None:
             acc.add('wildcard_table_kinds', kind)
+    elif group == 'values':
+        nexp = len(spec['targets'])
+        check_values(conn, label, spec, names, rows, out)
     else:
         nexp = len(spec)
         if len(names) != nexp:
@@ -721,6 +874,34 @@ def check_statement(conn, unit, acc=None):
         acc.count('names_checked', len(names))
         acc.add('description_lengths', len(names))
     return out
+
+
+def check_sequence(conn, unit, acc=None, upto=None):
+    """The spellings of one statement one after the other on ``conn``; returns [(fingerprint, message, step)].
+    A report on a later step that does not appear when that spelling is the first statement of a connection
+    without history is a dependence on the statements executed before: fingerprint ``sequence:...``."""
+    group, label, texts, specs, nhidden = unit
+    res = []
+    for step, (text, spec) in enumerate(zip(texts, specs)):
+        if upto is not None and step > upto:
+            break
+        found = check_statement(conn, ('named', label, text, spec, nhidden), acc)
+        if found and step:
+            try:
+                alone = {fp for fp, _ in check_statement(fresh_connection_with_tables(conn), ('named', label, text, spec, nhidden))}
+            except Exception:       # noqa: BLE001
+                alone = set()
+            found = [(fp if fp in alone else f'sequence:{fp}',
+                      msg if fp in alone else f'{msg} -- only after {texts[step - 1]!r} was executed on the same connection', ) for fp, msg in found]
+        res.extend((fp, f'{text!r}: {msg}', step) for fp, msg in found)
+    return res
+
+
+def fresh_connection_with_tables(conn):
+    new = fresh_connection()
+    for name in ('t', 'u'):
+        new.tables[name] = conn.tables[name]
+    return new
 
 
 def jsonable_targets(spec):
@@ -743,6 +924,7 @@ def units(tier, seed=0):
     yield from wildcard_statements(conn, thorough)
     yield from table_kind_statements(conn, seed)
     yield from attribute_statements(seed, 3 if thorough else 1)
+    yield from value_statements(thorough)
 
 
 _UNITS = None       # built once in the parent, inherited by the forked workers
@@ -755,14 +937,30 @@ def shard_fn(shard, nshards, tier, seed):
         if i % nshards != shard:
             continue
         group, label, text, spec, nhidden = u
-        acc.count('statements')
         acc.count(f'group[{group}:{label[0]}]')
-        acc.add('texts', hash(text))
-        if group == 'named':
+        if group == 'sequence':
+            texts, specs = text, spec
+            text, spec = texts[0], specs[0]
+            acc.count('statements', len(texts))
+            acc.count('sequences')
+            acc.count('sequence_steps_after_the_first', len(texts) - 1)
+            acc.count('sequence_steps_spelled_differently_from_the_previous', sum(1 for a, b in zip(texts, texts[1:]) if a != b))
+            acc.count('sequence_expression_targets_spelled_differently_from_the_previous', sum(
+                1 for k in range(1, len(texts)) for ta, tb in zip(specs[k - 1], specs[k])
+                if ta['kind'] != 'C' and texts[k - 1][ta['region'][0]:ta['region'][1]].strip() != texts[k][tb['region'][0]:tb['region'][1]].strip()))
+            for x in texts:
+                acc.add('texts', hash(x))
+        else:
+            acc.count('statements')
+            acc.add('texts', hash(text))
+        if group in ('named', 'sequence'):
             for t in spec:
                 acc.count(f'targets[{t["kind"]}]')
             acc.add('kind_sequences', ''.join(t['kind'] for t in spec))
             acc.count(f'hidden[{nhidden}]')
+        if group == 'values':
+            acc.add('value_name_patterns', tuple(label[1:4]))
+            acc.count(f'value_statements[{spec["where"]}]')
         if i % 10 == 0 and nhidden:
             # non-vacuity only (never part of the verdict): does the compiler really carry invisible targets here?
             try:
@@ -773,6 +971,11 @@ def shard_fn(shard, nshards, tier, seed):
                 acc.count('sampled_invisible_targets', inv)
             except Exception:      # noqa: BLE001 -- internals may change; this is only a counter
                 acc.count('sampled_compile_introspection_failed')
+        if group == 'sequence':
+            for fp, msg, step in check_sequence(conn, u, acc):
+                acc.violation(fp, msg, {'group': group, 'label': repr(label), 'texts': texts, 'specs': [jsonable_targets(x) for x in specs],
+                                        'step': step, 'nhidden': nhidden})
+            continue
         for fp, msg in check_statement(conn, u, acc):
             acc.violation(fp, f'{text!r}: {msg}', {'group': group, 'label': repr(label), 'text': text, 'spec': jsonable_targets(spec), 'nhidden': nhidden})
         if i % 499 == 0:
@@ -782,6 +985,9 @@ def shard_fn(shard, nshards, tier, seed):
 
 def replay(case):
     conn = connection()
+    if case['group'] == 'sequence':
+        u = ('sequence', ('replay',), case['texts'], [unjson_targets(x) for x in case['specs']], case.get('nhidden'))
+        return [Violation(fp, msg, case) for fp, msg, step in check_sequence(conn, u, upto=case['step']) if step == case['step']]
     spec = case['spec']
     if case['group'] == 'wildcard':
         spec = ('subquery', spec[1]) if isinstance(spec, list) else spec
